@@ -195,7 +195,9 @@ func runTimeline(tl timeline, dir string) outcome {
 			if c < cycles-1 {
 				restartSeq++
 				app.Write([]byte(fmt.Sprintf("w99:%d:0:%08x|\n", restartSeq, crc32.ChecksumIEEE(nil))))
+				mu.Lock() // a writer whose time is up appends its records under mu at any moment
 				all = append(all, rec{99, restartSeq, "", 0, s0, time.Now()})
+				mu.Unlock()
 				app.Stop()
 			}
 		}
